@@ -2,15 +2,17 @@
 (* C19, code-shaped model of grpc-server.go StreamBlocks / StreamTransactions (processSlotTransactions).
    Block-scan path (no filter, no include accounts, or no address index): slot loop; a slot without a block is
    skipped; every transaction passes through the filter predicate.
-   Index path (include accounts and an address index): per included account the newest <= Cap in-range entries of the
-   address index (GetBeforeUntilSlot), each passed through the predicate (without the include test), buffered by
-   (slot, position) and flushed in ascending order.
+   Index path (include accounts and an address index): per included account a query for the newest <= limit in-range
+   entries of the address index (GetBeforeUntilSlot; first limit Cap), repeated with a doubled limit while the answer comes
+   back full (Grow = TRUE; the index has no cursor to continue from) - an answer shorter than its limit is the whole range;
+   each entry is passed through the predicate (without the include test), buffered by (slot, position) and flushed in
+   ascending order.  Grow = FALSE is the single query of the tree before 04fedb3 (former known finding C19-K1).
    Pinned = TRUE reproduces the pinned tree: the predicate returns TRUE to keep but both send sites tested its
    negation, the block-scan loop returned at the first slot without a block, and a successful protobuf transaction
    counted as failed; the include test of the block-scan path only saw static keys.
    Every (loaded set, range, filter, index on/off) is an initial state. *)
 EXTENDS StreamAbs, TLC
-CONSTANTS Arch, LoadedSets, Ranges, IncSets, ExcSets, ReqSets, Cap, Pinned
+CONSTANTS Arch, LoadedSets, Ranges, IncSets, ExcSets, ReqSets, Cap, Grow, Pinned
 VARIABLES loaded, start, end, f, useIndex
 vars == <<loaded, start, end, f, useIndex>>
 Filters == {NilFilter} \cup [vote : BOOLEAN, failed : BOOLEAN, inc : IncSets, exc : ExcSets, req : ReqSets]
@@ -40,8 +42,13 @@ Scan(slot, out) ==
 \* ---- index path
 Rows == LoadedRows(Arch, loaded)
 NewestFirst(s) == [i \in 1..Len(s) |-> s[Len(s) + 1 - i]]
-Hits(a) == LET inr == SelectSeq(NewestFirst(Rows), LAMBDA r : InRange(r.slot, start, end) /\ a \in MentionSet(r.tx))
-           IN SubSeq(inr, 1, IF Len(inr) < Cap THEN Len(inr) ELSE Cap)
+InRangeOf(a) == SelectSeq(NewestFirst(Rows), LAMBDA r : InRange(r.slot, start, end) /\ a \in MentionSet(r.tx))
+Query(a, limit) == LET inr == InRangeOf(a) IN SubSeq(inr, 1, IF Len(inr) < limit THEN Len(inr) ELSE limit)
+RECURSIVE Enlarge(_, _)
+Enlarge(a, limit) == LET q == Query(a, limit) IN IF Len(q) < limit \/ ~Grow THEN q ELSE Enlarge(a, 2 * limit)
+Hits(a) == Enlarge(a, Cap)
+\* the loop ends: a query is repeated only while it comes back full, and limits double
+QueriesBounded == \A a \in (IF f = NilFilter THEN {} ELSE f.inc) : Len(Hits(a)) = Len(InRangeOf(a)) \/ ~Grow
 Buffered == UNION {{Hits(a)[i] : i \in 1..Len(Hits(a))} : a \in f.inc}
 IndexPath == LET keep == {r \in Buffered : Send(r.tx, TRUE)}
              IN SelectSeq(Rows, LAMBDA r : r \in keep)          \* flush in ascending (slot, position) order
